@@ -4,7 +4,8 @@ from driver import Leg
 # The three defects this check found on the pinned tree (message.py FlattenedSize() with non-ASCII field names, message.py
 # length of str items in user-typed fields, UMFindData on a zero-length last item) are repaired in /repo; each keeps its
 # stable key and a fixed witness in the regress leg, and the random repertoire includes those corners.
-# VERIF_C08_MASK=pynames,umzero,pyexample exists only to judge a tree OLDER than those repairs (counted as masked_*); default: strict.
+# A fourth one (MicroMessage could not see a trailing zero-item field, repaired as a5da53f) likewise: key micro|zero-item-field-not-readable, regress case 8.
+# VERIF_C08_MASK=pynames,umzero,pyexample,umzerofield is NOT used by any registered run; it exists only to judge a tree OLDER than those repairs.
 _MASK = os.environ.get('VERIF_C08_MASK', '')
 
 
